@@ -970,6 +970,40 @@ def run(ctx: Ctx) -> None:
         if ("err" in i) != ("err" in model) or ("err" not in i and i != model):
             ctx.disagree("notations", {"chain": ch, "notation": vname, "feature": r["feat"]}, i, model)
 
+    # ---- suite: cross_match - which built-in chained groups claim a well-formed chained name ---------------
+    FIRSTSEP_CLASS = "first-separator-suffix-parser-not-first-op"
+    SWALLOW_CLASS = "word-terminated-pattern-swallows-later-suffixes"
+    reqs, impls = [], []
+    for _ in range(ctx.budget(150, 2500)):
+        d = rng.randint(1, K)
+        ch = gen_chain(G, rng, d, groups=all_bases)
+        nm = render(ch)
+        claimed = []
+        for b in all_bases:
+            try:
+                if G.any_impl(b).match_feature_group_criteria(nm, Options()):
+                    claimed.append(b)
+            except Exception as e:
+                claimed.append(f"{b}:{type(e).__name__}")
+        last = ch["ops"][-1]["g"]
+        ctx.case("cross_match", nm, d >= 2, depth=d, last=last)
+        if claimed != [last]:
+            cls_ = None
+            extra = [c for c in claimed if c != last]
+            if last in ("ClusteringFeatureGroup", "ForecastingFeatureGroup") and nm.find("__") != nm.rfind("__") and last not in claimed and not extra:
+                cls_ = FIRSTSEP_CLASS
+            elif extra and all(c in ("ForecastingFeatureGroup", "SklearnPipelineFeatureGroup") and any(o["g"] == c for o in ch["ops"][:-1]) for c in extra) and (
+                last in claimed or last in ("ClusteringFeatureGroup", "ForecastingFeatureGroup")):
+                cls_ = SWALLOW_CLASS
+            ctx.violation("cross_match", {"name": nm, "chain": ch}, f"{nm!r} (last suffix: {last}) is claimed by {claimed}", claimed, [last], finding_class=cls_)
+        if all(o["g"] in MODELLED for o in ch["ops"]):
+            reqs.append({"op": "C16.matchingGroups", "name": nm, "opts": opts_enc(Options())})
+            impls.append([c for c in claimed if c in MODELLED])
+    outs = ctx.lean.batch(reqs)
+    for r, i, o in zip(reqs, impls, outs):
+        if i != o:
+            ctx.disagree("cross_match", r, i, o)
+
     # ---- suite: json --------------------------------------------------------------------------------
     run_json_suite(ctx, G, K)
 
@@ -1001,7 +1035,7 @@ LIST_CLASS = "option-value-spelled-as-list-or-set"
 AMP_CLASS = "multi-input-op-not-last"
 SAMEKEY_CLASS = "options-form-consecutive-levels-share-a-key-with-different-values"
 NESTED_CLASS = "group-options-nest-of-different-levels"
-FSET_CLASS = "nested-frozenset-of-feature-exponential-time"
+FSET_CLASS = "in_features-frozenset-of-feature-objects-exponential-time"
 GEO3_CLASS = "geo-distance-name-with-3-or-more-inputs"
 TILDE_CLASS = "source~i-followed-by-suffix"
 
@@ -1093,8 +1127,8 @@ def notation_variants(ctx: Ctx, G: Groups, ch: Dict[str, Any], rng: Any, e2e: bo
     else:
         leaf = rng.choice(["str", "fset", "feat", "list", "set", "str_sp", "fset_feat"])
         inner = rng.choice(["feat", "feat", "fset", "list"])
-    if len(ch["src"]) > 1 and leaf in ("str", "str_sp", "feat"):
-        leaf = {"str": "str", "str_sp": "str_sp", "feat": "fset_feat" if not e2e or d == 1 else "fset"}[leaf]
+    if len(ch["src"]) > 1 and leaf in ("feat", "fset_feat"):
+        leaf = "fset" if e2e else "fset_feat"  # frozenset({Feature, Feature}) does not come back from the engine (FSET_CLASS)
     out.append((f"options[{leaf},{inner}]", build_options_feature(ch, leaf, inner, rng, tag=tagp + "p")))
     if d >= 2:
         k = rng.randint(1, d - 1)
@@ -1352,48 +1386,33 @@ def run_e2e_suite(ctx: Ctx, G: Groups, K: int) -> None:
 
     lean_reqs: List[Dict[str, Any]] = []
     lean_meta: List[Tuple[Any, str, Dict[str, Any]]] = []
-    NESTED_CLASS = "nested-group-options-depth>=2"
-    LIST_CLASS = "in_features-spelled-as-list-or-set"
+    counter = [0]
 
-    def side_by_side(ch: Dict[str, Any], fwname: str, cols: Dict[str, List[Any]], extra_top: Optional[Dict[str, Any]] = None) -> None:
+    def side_by_side(ch: Dict[str, Any], fwname: str, cols: Dict[str, List[Any]]) -> None:
         d = len(ch["ops"])
         root = E.root(cols)
         name = render(ch)
-        top_opts = extra_top or {}
-        variants: List[Tuple[str, Any, str]] = []  # (notation, feature, result column)
-        variants.append(("name", Feature(name, Options(context=dict(top_opts))) if top_opts else name, name))
-        leaf = rng.choice(["str", "fset", "feat", "fset_feat", "list"])
-        inner = rng.choice(["feat", "feat", "fset"]) if d <= 2 else "feat"  # frozenset({Feature}) nests cost ~80x per level (see probe below)
-        of = build_options_feature(ch, leaf, inner, rng, tag="p")
-        variants.append((f"options[{leaf},{inner}]", of, f"p{d - 1}"))
-        if d >= 2:
-            k = rng.randint(1, d - 1)
-            variants.append(("options-mixed", build_options_feature(ch, "str", "feat", rng, mixed_at=k, tag="m"), f"m{d - 1}"))
-            variants.append(("options-group-nested", build_options_feature(ch, "str", "feat", rng, where="group", tag="g"), f"g{d - 1}"))
-        for form in ("string", "ctx", "optin", "nested"):
-            if top_opts and form == "string":
-                continue
-            doc = json.dumps([build_json(ch, form, tag="j" + form[0])])
-            try:
-                fs = load_features_from_config(doc)
-                variants.append((f"json-{form}", fs[0], name if form == "string" else f"j{form[0]}{d - 1}"))
-            except Exception as e:
-                ctx.violation("e2e", {"chain": ch, "notation": f"json-{form}", "doc": doc}, f"JSON form {form} rejected by the loader: {e!r}"[:300])
+        counter[0] += 1
+        variants = notation_variants(ctx, G, ch, rng, e2e=True, tagp=f"c{counter[0]}")
         results: Dict[str, Dict[str, Any]] = {}
-        for vname, feat, col in variants:
+        preds: Dict[str, Dict[str, bool]] = {}
+        for vname, feat in variants:
+            wire = enc(feat)  # before the run: the engine merges options into the Feature objects it is given
+            preds[vname] = {"list": has_list_value(feat), "amp": amp_before_suffix(feat), "samekey": samekey_levels(feat), "nest": group_nest_differs(feat)}
+            col = feat.name.name
             r = E.run([feat], fwname, root)
             r["col"] = col
             results[vname] = r
-            if not isinstance(feat, str):
-                lean_reqs.append({"op": "C16.resolve", "fuel": 14, "feat": enc(feat), "prop": True})
-                lean_meta.append((ch, vname, r))
+            lean_reqs.append({"op": "C16.resolve", "fuel": 14, "feat": wire, "prop": True})
+            lean_meta.append((ch, vname, r))
         ctx.case("e2e", {"chain": ch, "fw": fwname, "cols": cols}, d >= 2, fw=fwname, depth=d, top=ch["ops"][-1]["g"])
         exp_trace = [G.impls[op["g"]][fwname].__name__ for op in ch["ops"]]
         ref = results["name"]
         case = {"chain": ch, "fw": fwname, "cols": {k: [str(x) if isinstance(x, datetime.datetime) else x for x in v] for k, v in cols.items()}}
         # oracle A: the name form runs, through exactly the chain of groups written in it, left to right
         if not ref["ok"]:
-            ctx.violation("e2e", case, f"well-formed chain {name!r} on {fwname} fails: {ref.get('kind')} {ref.get('msg')}", ref, "runs")
+            ctx.violation("e2e", case, f"well-formed chain {name!r} on {fwname} fails: {ref.get('kind')} {ref.get('msg')}", ref, "runs",
+                          finding_class=AMP_CLASS if (preds["name"]["amp"] and ref.get("kind") == "ValueError") else None)  # fmt: skip
             return
         if ref["trace"] != exp_trace:
             ctx.violation("e2e", case, f"{name!r} ran through {ref['trace']}, written left to right it is {exp_trace}", ref["trace"], exp_trace)
@@ -1402,19 +1421,25 @@ def run_e2e_suite(ctx: Ctx, G: Groups, K: int) -> None:
         for vname, r in results.items():
             if vname == "name":
                 continue
-            cls_ = None
-            if vname in ("options-group-nested", "json-nested") and d >= 2:
-                cls_ = NESTED_CLASS
-            if ("list" in vname) and not r["ok"] and r.get("kind") == "TypeError":
-                cls_ = LIST_CLASS
             if not r["ok"]:
-                ctx.violation("e2e", {**case, "notation": vname}, f"notation {vname} of {name!r} on {fwname} fails ({r.get('kind')}: {r.get('msg')}) while the name form runs", r, "same as name form",
+                pr = preds[vname]
+                msg = r.get("msg", "")
+                cls_ = None
+                if pr["list"] and r.get("kind") == "TypeError":
+                    cls_ = LIST_CLASS
+                elif pr["nest"] and (r.get("kind") == "multiple" or "conflicting values" in msg):
+                    cls_ = NESTED_CLASS
+                elif pr["samekey"] and "conflicting values" in msg:
+                    cls_ = SAMEKEY_CLASS
+                elif pr["amp"] and r.get("kind") == "ValueError":
+                    cls_ = AMP_CLASS
+                ctx.violation("e2e", {**case, "notation": vname}, f"notation {vname} of {name!r} on {fwname} fails ({r.get('kind')}: {msg}) while the name form runs", r, "same as name form",
                               finding_class=cls_)  # fmt: skip
                 continue
             if r["trace"] != ref["trace"]:
                 ctx.violation("e2e", {**case, "notation": vname}, f"notation {vname} of {name!r} ran through {r['trace']}, the name form through {ref['trace']}", r["trace"], ref["trace"])
             got = r["cols"].get(r["col"])
-            if got is None or not vals_close(got, ref_vals, 0.0 if True else 1e-12):
+            if got is None or not vals_close(got, ref_vals, 0.0):
                 ctx.violation("e2e", {**case, "notation": vname}, f"notation {vname} of {name!r} yields {got}, the name form {ref_vals}", got, ref_vals)
         # oracle C: left to right = op_k(... op_1(x)), each op evaluated on its own (depth-1 features on a fresh root)
         if d >= 2 and all(op["g"] not in ("GeoDistanceFeatureGroup", "TextCleaningFeatureGroup") for op in ch["ops"]):
@@ -1465,12 +1490,9 @@ def run_e2e_suite(ctx: Ctx, G: Groups, K: int) -> None:
         src = gen_source(rng)
         op = gen_op(G, rng, "TextCleaningFeatureGroup", e2e=True)
         texts = [rng.choice(["Hello, World!", "A  b", "the cat", "x@y.com hi", "MiXed   Case?", "plain"]) for _ in range(7)]
-        side_by_side({"src": [src], "ops": [op]}, fwname, {src: texts, "reference_time": ts}, extra_top={"cleaning_operations": tuple(op["p"])})
+        side_by_side({"src": [src], "ops": [op]}, fwname, {src: texts, "reference_time": ts})
 
     # ---- known grammar defects, each reproduced on its narrow class -----------------------------------
-    AMP_CLASS = "multi-input-op-not-last"
-    GEO3_CLASS = "geo-distance-name-with-3-or-more-inputs"
-    TILDE_CLASS = "source~i-followed-by-suffix"
     for _ in range(ctx.budget(3, 20)):
         a, b = "pa", "pb"
         pts = lambda: [(rng.randint(0, 5), rng.randint(0, 5)) for _ in range(7)]
@@ -1517,6 +1539,27 @@ def run_e2e_suite(ctx: Ctx, G: Groups, K: int) -> None:
         va, vb, vc = r_a.get("cols", {}).get(nmm), r_b.get("cols", {}).get("agg"), r_c.get("cols", {}).get("jagg")
         if not (r_a["ok"] and r_b["ok"] and r_c["ok"] and vals_close(va, vb) and vals_close(va, vc)):
             ctx.violation("e2e_grammar", {"name": nmm}, f"multi-column source m through {t}: name {va}, options {vb}, json {vc}", [va, vb, vc], "equal")
+
+    # in_features = frozenset of Feature objects (a documented spelling): time explodes with the number of Feature objects inside frozensets
+    def fset_probe(kind: str, slow: Any, plain: Any, cols_: Dict[str, List[Any]], timeout: float, col_s: str, col_p: str) -> None:
+        rootf = E.root(cols_)
+        r_plain = E.run([plain], "PandasDataFrame", rootf)
+        E.timeout = timeout
+        r_fs = E.run([slow], "PandasDataFrame", rootf)
+        E.timeout = 6.0
+        ctx.case("e2e_grammar", {"spelling": kind}, True, kind="frozenset-of-features")
+        if not (r_fs["ok"] and r_plain["ok"] and vals_close(r_fs["cols"].get(col_s), r_plain["cols"].get(col_p))):
+            ctx.violation("e2e_grammar", {"spelling": kind}, f"options form with {kind}: {r_fs.get('kind')} {r_fs.get('msg', '')} (same chain with str / direct Feature spelling: ok={r_plain['ok']})",
+                          r_fs, r_plain, finding_class=FSET_CLASS if r_fs.get("kind") == "timeout" else None)  # fmt: skip
+
+    pts7 = lambda: [(rng.randint(0, 5), rng.randint(0, 5)) for _ in range(7)]
+    fset_probe("in_features=frozenset({Feature('pa'), Feature('pb')}) for a two-input operation",
+               Feature("s0", Options(context={"distance_type": "euclidean", "in_features": frozenset([Feature("pa"), Feature("pb")])})),
+               Feature("t0", Options(context={"distance_type": "euclidean", "in_features": frozenset(["pa", "pb"])})),
+               {"pa": pts7(), "pb": pts7(), "reference_time": ts}, 4.0, "s0", "t0")  # fmt: skip
+    chf = {"src": ["x"], "ops": [{"g": "MissingValueFeatureGroup", "p": ["mean"]}, {"g": "AggregatedFeatureGroup", "p": ["sum"]}, {"g": "MissingValueFeatureGroup", "p": ["ffill"]}]}
+    fset_probe("in_features=frozenset({Feature}) at each of 3 levels", build_options_feature(chf, "fset_feat", "fset", rng, tag="r"), build_options_feature(chf, "feat", "feat", rng, tag="q"),
+               {"x": num_col(), "reference_time": ts}, 6.0, "r2", "q2")  # fmt: skip
 
     # ---- malformed names / configurations must raise --------------------------------------------------
     root = E.root({"x": num_col(), "y": num_col(), "reference_time": ts})
